@@ -1018,14 +1018,23 @@ def mirror(smi):
 
 
 def run(ck):
-    ck.trusted += ['translator tools/gen_stereo.py (Python ast: the two dict displays)', 'correspondence runner harness/checks/C12.py + harness/coqcases.py',
+    ck.trusted += ['translators tools/gen_stereo.py (Python ast: the two dict displays), tools/gen_elements.py (is_forming_single/double_bonds)',
+                   'correspondence runner harness/checks/C12.py (incl. the tracing wrappers it installs on MoleculeContainer._format_atom / __ct_map / '
+                   'add_cis_trans_stereo and postprocess_molecule inside the check process) + harness/coqcases.py + harness/coqmol.py',
                    'CachedMethods shim harness/boot.py', 'CPython 3.12.1', 'RDKit 2026.3 (search only)']
-    ck.assumptions += ['the translate functions are hand-modelled (coq/model/Stereo.v); tie = exhaustive correspondence on all argument '
-                       'tuples over small molecules incl. malformed ones; coordinates are modelled over Z (the code uses floats)',
-                       'stereogenicity detection (__chiral_centers) and the SMILES reader/writer are not modelled here: RDKit search only']
-    ck.extra['rule'] = ('correspondence: every (molecule, env arrangement incl. malformed, sign) of 5+7+4 seed molecules, random integer points for the '
-                        'geometric functions; non-trivial = the implementation returned a sign (not an exception). search: corpus stereo molecules '
-                        'respelled by chython and re-read by RDKit; non-trivial = has at least one stereo element')
+    ck.assumptions += ['the translate functions, the registries, the SMILES mark rules and the fix_stereo loop are hand-modelled (coq/model/Stereo.v, '
+                       'StereoRegistry.v, StereoSmiles.v, StereoFix.v); tie = correspondence (exhaustive argument tuples on small molecules, generated + '
+                       'corpus molecules, traced real calls); coordinates are modelled over Z (the code uses floats)',
+                       'chirality detection (__chiral_centers, _chiral_morgan) is not modelled: a parameter of the fix_stereo theorems (its monotonicity is '
+                       'a hypothesis of C12_fix_stereo_spec, observed on every table of the correspondence); toolkit agreement is RDKit search only',
+                       'round-trip theorems assume the reader sees the neighbour order the writer used (parser order = writer visited order)']
+    ck.extra['rule'] = ('correspondence: (1) every (molecule, env arrangement incl. malformed, sign) of 5+7+4 seed molecules, random integer points for the '
+                        'geometric functions; (2) registries of cumulene chains 2-6 atoms x end decorations, a zoo of hypervalent / metal / charged / '
+                        'malformed molecules, corpus molecules, each also with shuffled numbering and insertion orders; (3) every stereo mark the real writer '
+                        'emits and the real reader interprets on family strings + corpus molecules in canonical and random orders; (4) fix_stereo on label '
+                        'states of 27 templates. non-trivial = the implementation returned a sign / the molecule has a registry entry / a label is dropped or '
+                        'several labels interact. search: corpus stereo molecules respelled by chython and re-read by RDKit; non-trivial = has at least one '
+                        'stereo element')
     proved = common.standard_proof_steps(ck, translators=['stereo', 'elements'], extra_targets=['model/StereoRegistry.vo', 'model/StereoSmiles.vo', 'model/StereoFix.vo'])
     tied = corr_translate(ck)
     tied = corr_registries(ck) and tied
